@@ -1064,8 +1064,8 @@ func runC01(c *Ctx) error {
 		rn.one(s, true)
 	}
 
-	nCoq := c.N(2400, 15000)
-	nTotal := c.N(40000, 300000)
+	nCoq := c.N(2400, 10000)
+	nTotal := c.N(40000, 200000)
 	// which cases go to Coq: the first nCoq/2 and then every k-th
 	every := (nTotal - nCoq/2) / (nCoq / 2)
 	for i := 0; i < nTotal; i++ {
